@@ -368,6 +368,37 @@ def api_table():
         d = oq.MeanFieldTempo(m, [bath], prm, [a], 0.5).compute(2.4 * DT, progress_type="silent")
         return np.concatenate([np.array(d.system_dynamics[0].states).ravel(), np.array(d.fields)])
 
+    def t_cdf_state(a):
+        s_ = oq.TimeDependentSystemWithField(lambda t, f: 0.5 * M.SZ + np.real(f) * M.SX)
+        m = oq.MeanFieldSystem([s_], lambda t, st, f: -0.1 * f - 0.1j * np.trace(M.SM @ st[0]))
+        d = oq.compute_dynamics_with_field(m, 0.5, process_tensor_list=[pt], initial_state_list=[a], progress_type="silent")
+        return np.concatenate([np.array(d.system_dynamics[0].states).ravel(), np.array(d.fields)])
+
+    def t_bathdyn_state(a):
+        tt = oq.bath_dynamics.TwoTimeBathCorrelations(oq.System(0.4 * M.SX + 0.2 * M.SZ), bath, pt, initial_state=a)
+        return np.asarray(tt.occupation(1.3, change_only=True, progress_type="silent")[1], dtype=complex).ravel()
+
+    def t_td_h_output(a):
+        # the array RETURNED by a user callable, in the layout under test
+        return dyn(system=oq.TimeDependentSystem(lambda t: a))
+
+    def t_td_lind_output(a):
+        return dyn(system=oq.TimeDependentSystem(lambda t: H_NP, gammas=[lambda t: 0.2], lindblad_operators=[lambda t: a]))
+
+    def t_param_h_output(a):
+        from oqupy.gradient import state_gradient as sg
+        ps = oq.ParameterizedSystem(hamiltonian=lambda x: a * x)
+        r = sg(ps, M.RHO_GEN2, M.RHO_PLUS.T.copy(), [pt], np.linspace(0.5, 1.5, 2 * len(pt)).reshape(-1, 1), progress_type="silent")
+        return np.concatenate([np.asarray(r["gradient"]).ravel(), np.asarray(r["dynamics"].states).ravel()])
+
+    def t_spt_mpo(a):
+        from oqupy.process_tensor import SimpleProcessTensor
+        p_ = SimpleProcessTensor(hilbert_space_dimension=2, dt=DT)
+        for k in range(2):
+            p_.set_mpo_tensor(k, a.reshape(1, 1, 4, 4) if a.ndim == 2 else a)
+        p_.compute_caps()
+        return np.array(oq.compute_dynamics(sysm, M.RHO_GEN2, process_tensor=p_, progress_type="silent").states).ravel()
+
     def t_gibbs_h(a):
         b = oq.Bath(np.diag([0.5, -0.5]).astype(complex), M.ohmic(alpha=0.2, temperature=0.7))
         return np.asarray(oq.gibbs_tempo_compute(oq.System(a), b, oq.GibbsParameters(n_steps=3, epsrel=1e-8),
@@ -400,6 +431,12 @@ def api_table():
         "AugmentedMPS.gamma(rank1)": (M.RHO_GEN2.reshape(4), t_mps_gamma1, True),
         "SystemChain.hamiltonians": (0.4 * M.SX + 0.2 * M.SY, t_chain_h, True),
         "MeanFieldTempo.initial_state": (M.RHO_GEN2, t_mf_state, False),
+        "compute_dynamics_with_field.initial_state": (M.RHO_GEN2, t_cdf_state, False),
+        "TwoTimeBathCorrelations.initial_state": (M.RHO_GEN2, t_bathdyn_state, False),
+        "TimeDependentSystem.hamiltonian(t) output": (H_NP, t_td_h_output, False),
+        "TimeDependentSystem.lindblad_operator(t) output": (M.SM + 0.2 * M.SZ, t_td_lind_output, False),
+        "ParameterizedSystem.hamiltonian(x) output": (H_NP, t_param_h_output, False),
+        "SimpleProcessTensor.set_mpo_tensor": (KICK, t_spt_mpo, False),
         "GibbsTempo.system_hamiltonian": (0.3 * M.SZ + 0.2 * M.SY, t_gibbs_h, True),
         "ChainControl.control": (KICK, t_cc_control, True),
     }
